@@ -54,6 +54,8 @@ def evaluate(case, res):
         if before != after:
             res.bad('list-changes-state', '%r changed (filter, breakpoint, selection, record) from %r to %r' % (seg.text, before[:5], after[:5]))
         arg = seg.text.strip()
+        while re.match(r'(w|wl)\s', arg):
+            arg = re.split(r'\s', arg, maxsplit=1)[1].strip()      # the GDB-style prefix is accepted at every prompt
         arg = re.split(r'\s', arg, maxsplit=1)
         arg = arg[1].strip() if len(arg) > 1 else ''
         # `matcher ~ N`: the cap is what follows the last `~` that is not inside a quoted string of the matcher
